@@ -70,6 +70,7 @@ type Unit struct {
 	quantOK         bool
 	sliceConstLen   map[string]int
 	axiomErrs       []string
+	localLocs       map[string]map[string]string // function key -> source name -> structural locator
 	replayWhy       string
 	lastMonBase     map[*Monitor]*monBase
 	enumTag         map[string]*enumInfo // slice term -> the map whose keys it enumerates (after the loop)
@@ -226,6 +227,7 @@ type Frame struct {
 	loopPreEnv                         map[*ssa.BasicBlock]*Env
 	curInstr                           ssa.Instruction
 	nameCands                          map[string][]ssa.Value // source names with several definitions
+	locIndex                           map[string]ssa.Value
 }
 
 func (fr *Frame) val(v ssa.Value) *Val {
@@ -420,6 +422,7 @@ func (fr *Frame) run(entry *State) (*State, []*Val) {
 	fr.edges = map[[2]int]*State{}
 	fr.entry = entry.clone()
 	fr.collectNames()
+	fr.recordLocators()
 	order := fr.topoOrder()
 	for _, b := range order {
 		fr.runBlock(b, entry)
@@ -626,6 +629,17 @@ func (fr *Frame) collectNames() {
 				fr.nameVals[p.Comment] = p
 			}
 		}
+	}
+}
+
+func (fr *Frame) recordLocators() {
+	u := fr.u
+	if u.localLocs == nil {
+		u.localLocs = map[string]map[string]string{}
+	}
+	k := fnKey(fr.fn)
+	if _, done := u.localLocs[k]; !done {
+		u.localLocs[k] = fr.localLocators()
 	}
 }
 
